@@ -49,7 +49,7 @@ ENCODING = ["fcp.encoding:PackedEncoder._get_type_length", "fcp.encoding:PackedE
             "fcp.specs.type:NumericType.get_length", "fcp.specs.enum:Enum.max", "lemmas:max_is_enum_max"]
 
 # per-function solver budgets (ms) above the tier default: sized so that the verdict does not flip on a loaded machine
-SLOW = {"fcp.serde:_decode": 60000, "lemmas:unpack_byte": 60000, "lemmas:bit_eq": 30000, "lemmas:rt_dyn": 30000, "lemmas:rt": 60000, "theorems:C01_roundtrip": 60000, "theorems:C09_general": 60000, "theorems:C09_dbc": 60000, "lemmas:flat_all_2": 30000, "lemmas:flat_all_1": 30000, "lemmas:rt_str": 30000, "fcp.serde:_decode_struct": 60000, "fcp.serde:_decode_str": 30000, "fcp.serde:decode": 30000, "fcp.serde:_encode": 30000,
+SLOW = {"fcp.serde:_decode": 120000, "lemmas:unpack_byte": 60000, "lemmas:bit_eq": 30000, "lemmas:rt_dyn": 30000, "lemmas:rt": 60000, "theorems:C01_roundtrip": 60000, "theorems:C09_general": 60000, "theorems:C09_dbc": 60000, "lemmas:flat_all_2": 30000, "lemmas:flat_all_1": 30000, "lemmas:rt_str": 30000, "fcp.serde:_decode_struct": 60000, "fcp.serde:_decode_str": 30000, "fcp.serde:decode": 30000, "fcp.serde:_encode": 30000,
         "fcp.serde:_decode_dynamic_array": 30000, "fcp.serde:_encode_struct": 30000}
 
 PLANS = {
@@ -68,12 +68,14 @@ PLANS = {
                        "sorted-by-field-id fields; generate() resets the state so its result is a function of (schema, binding, context)",
     },
     "C05": {
-        "targets": ["fcp_dbc.dbc_writer:_make_signals"] + ENCODING,
+        "targets": ["fcp_dbc.dbc_writer:_make_signals", "fcp.specs.v2:FcpV2.get_matching_impls", "fcp_dbc.dbc_writer:write_dbc"] + ENCODING,
         "native": "dbc",
         "trusted": [
             "ASSUMED (not proved): cantools Signal/Message objects and Database.as_dbc_string carry exactly the constructor arguments, and an "
             "independent DBC reader recovers them (assumed contracts ext:cantools...Signal, ...BaseConversion.factory)",
-            "write_dbc (per-bus grouping, frame id, message name) is NOT under contract: defaultdict/lambda plumbing is outside the engine's subset; "
+            "write_dbc IS under contract (per-bus grouping in order of first use, frame id, message name, signal count; collections.defaultdict is "
+            "modelled as insertion-ordered keys + one str->list map per record field); the signal-level facts of each message are _make_signals' "
+            "postcondition, composed per message on paper; fcp_dbc Generator.generate (dict records around the texts) is not under contract; "
             "only the native replay exercises it",
             "math.ceil(x / 8) on exact rationals; str.replace is one fixed function (same term in code and spec)",
         ],
@@ -85,16 +87,22 @@ PLANS = {
         "targets": ["fcp_dbc.dbc_writer:_make_signals", "fcp.encoding:PackedEncoder._get_type_length", "fcp.encoding:PackedEncoder._generate_signal",
                     "fcp.encoding:PackedEncoder._generate_struct", "fcp.encoding:PackedEncoder._generate_array_type",
                     "fcp.encoding:PackedEncoder._generate_compound_type", "fcp.encoding:PackedEncoder._generate",
-                    "fcp.encoding:PackedEncoder.generate", "fcp.codegen:GeneratorManager.generate", "fcp.codegen:CodeGenerator.gen"],
+                    "fcp.encoding:PackedEncoder.generate", "fcp.specs.v2:FcpV2.get_matching_impls", "fcp_dbc.dbc_writer:write_dbc",
+                    "fcp.codegen:GeneratorManager.generate", "fcp.codegen:CodeGenerator.gen"],
         "native": "dbc",
         "trusted": [
-            "write_dbc / fcp_dbc Generator.generate and the C plug-in's check_impl_size are not under contract (known finding KF-F16 for the latter)",
+            "fcp_dbc Generator.generate (one file record per (bus, text) pair returned by write_dbc, after unwrap()) and the C plug-in's "
+            "check_impl_size are not under contract (known finding KF-F16 for the latter)",
+            "write_dbc's precondition: every CAN binding names a well-formed struct with at least one leaf (the general verifier's checks, C09)",
             "as C04, C05, C10",
         ],
         "explanation": "corollary of contracts: _get_type_length raises ValueError exactly for types without a static packed size and the raise "
                        "propagates through every recursive member of PackedEncoder (no_raise_if clauses), so generate(impl) raises for any struct "
-                       "containing a string / dynamic array / optional at any depth; _make_signals raises iff the message exceeds 64 bits; the tiling "
-                       "invariant excludes overlaps and signals beyond the message; by C10's gating contract nothing is written when generation fails",
+                       "containing a string / dynamic array / optional at any depth (must_raise_if clauses on every member: raising is proved, "
+                       "not only allowed); _make_signals raises iff the message exceeds 64 bits; write_dbc is proved to return Ok only if every CAN "
+                       "binding has a static packed size and an id (neither exception is swallowed: a path that continues after a ValueError fails "
+                       "the loop invariant); the tiling invariant excludes overlaps and signals beyond the message; by C10's gating contract "
+                       "nothing is written when generation fails",
     },
     "C11": {
         "targets": ["fcp.parser:_get_fcp", "fcp.parser:get_fcp_from_string", "fcp.parser:FcpV2Transformer.mod_expr"],
